@@ -471,7 +471,25 @@ class Interp:
             return P(obj, path[:-1] + (off,))
         nv = binop('+', C(last) if isinstance(last, int) else last, off, st.sym)
         ni = nv[1] if nv[0] == 'c' else nv
+        # a byte pointer walking through a two-dimensional member array: past the end of a row it is in the next row
+        if isinstance(ni, int) and len(path) >= 3 and isinstance(path[-2], int) and isinstance(path[-3], str):
+            d = self._inner_dim(path[-3])
+            if d and (ni >= d or ni < 0):
+                return P(obj, path[:-2] + (path[-2] + ni // d, ni % d))
         return P(obj, path[:-1] + (ni,))
+
+    def _inner_dim(self, field):
+        """row length of a two-dimensional array member (by its field id), or None"""
+        c = getattr(self, '_inner_dims', None)
+        if c is None:
+            c = self._inner_dims = {}
+            for r in self.prog.records.values():
+                for f in r['fields']:
+                    t = self.prog.type(f['t'])
+                    el = self.prog.type(t['el']) if t.get('k') == 'array' and t.get('el') else None
+                    if el and el.get('k') == 'array' and el.get('n'):
+                        c[f['d'][2:]] = el['n']
+        return c.get(field)
 
     def deref(self, st, p, node=None):
         if p[0] == 'p':
@@ -1843,6 +1861,54 @@ class Interp:
         return o
 
     # loops ---------------------------------------------------------------
+    def ex_CXXForRangeStmt(self, n, states, fr):
+        """for (x : a) over a C array or std::array of known length: the body once per element, in order"""
+        o = Out([])
+        rng_n, var = n.get('range'), n.get('var')
+        t = self.T(rng_n) if rng_n else None
+        if t and t.get('k') == 'ref':
+            t = self.prog.type(t['to'])
+        cnt = None
+        if t and t.get('k') == 'array':
+            cnt = t.get('n')
+        elif t and t.get('k') == 'rec' and (t.get('rec') or '').startswith('std::array'):
+            import re as _re
+            m_ = _re.search(r',\s*(\d+)\s*>\s*$', (t.get('s') or '').replace('UL', '').replace('ul', ''))
+            cnt = int(m_.group(1)) if m_ else None
+        if cnt is None or var is None or cnt > 4096:
+            self.unknown(n, 'range-for over %s' % ((t or {}).get('s')))
+            return Out(list(states))
+        vt = self.T(var['t'])
+        isref = bool(vt and vt.get('k') == 'ref')
+        cur = []
+        for s in states:
+            for s2, l in self.lv(rng_n, s, fr):
+                cur.append((s2, l))
+        for i in range(cnt):
+            nxt = []
+            for s, l in cur:
+                if l is None:
+                    nxt.append((s, l))
+                    continue
+                el = (l[0], l[1] + (i,))
+                vl = fr.local(var['id'])
+                fr.vars[var['id']] = vl
+                if isref:
+                    self._decl_is_ref[var['id']] = True
+                    s.mem[vl] = P(*el)
+                else:
+                    s.mem[vl] = self.load(s, el, vt, node=n)
+                r = self.exec(n['body'], [s], fr)
+                o.ret += r.ret
+                o.norm += r.brk
+                for s3 in r.norm + r.cont:
+                    nxt.append((s3, l))
+            cur = nxt
+            if not cur:
+                break
+        o.norm += [s for s, _ in cur]
+        return o
+
     def ex_WhileStmt(self, n, states, fr):
         return self.loop(n, states, fr, None, n['cond'], None, n['body'], False)
 
